@@ -156,14 +156,22 @@ func genOps(c *vf.Ctx, i int, single bool) []op {
 	r := c.Rand(uint64(i))
 	kinds := []string{"write", "write", "write", "load", "load-sql", "snapshot", "restart", "kill-restart", "bad-load"}
 	if single {
-		kinds = append(kinds, "boot", "boot")
+		// single-node histories can boot, and later grow: a node that joins after a
+		// boot must end up with the booted database, with ("join") or without
+		// ("join-plain") the log having been truncated first
+		kinds = append(kinds, "boot", "boot", "join-plain", "join")
 	} else {
-		kinds = append(kinds, "join", "remove", "load")
+		kinds = append(kinds, "join", "join-plain", "remove", "load")
 	}
 	ops := []op{{Kind: "write", Arg: 0}}
 	w, l := 1, 0
+	if single && i%2 == 0 {
+		// directed: write, boot, write, plain join (no truncation), ...
+		ops = append(ops, op{Kind: "write", Arg: 1}, op{Kind: "boot", Arg: 0}, op{Kind: "write", Arg: 2}, op{Kind: "join-plain"})
+		w, l = 3, 1
+	}
 	n := c.N(9, 15)
-	joined := false
+	joined := single && i%2 == 0
 	for j := 0; j < n; j++ {
 		k := kinds[r.IntN(len(kinds))]
 		o := op{Kind: k, Node: r.IntN(3)}
@@ -177,13 +185,16 @@ func genOps(c *vf.Ctx, i int, single bool) []op {
 		case "bad-load":
 			o.Kind = "bad-load:" + []string{"random", "header-only", "truncated", "corrupt-page", "empty"}[r.IntN(5)]
 			o.Arg = j
-		case "join":
+		case "join", "join-plain":
 			if joined {
 				o.Kind = "write"
 				o.Arg = w
 				w++
 			}
 			joined = true
+		}
+		if o.Kind == "boot" && joined {
+			o.Kind = "load" // boot needs a single-node cluster
 		}
 		ops = append(ops, o)
 	}
@@ -410,10 +421,12 @@ func runHistory(c *vf.Ctx, dir string, i int) (res result) {
 				res.LogTail = tailFile(target.LogPath, 2500)
 				return
 			}
-		case o.Kind == "join":
-			// force the late joiner to arrive by snapshot: truncate logs first
-			for _, n := range lv {
-				n.Do("POST", "/snapshot?trailing_logs=1", nil, "")
+		case o.Kind == "join" || o.Kind == "join-plain":
+			if o.Kind == "join" {
+				// force the late joiner to arrive by snapshot: truncate logs first
+				for _, n := range lv {
+					n.Do("POST", "/snapshot?trailing_logs=1", nil, "")
+				}
 			}
 			nd := procnode.New(fmt.Sprintf("n%d", nextID), filepath.Join(dir, fmt.Sprintf("n%d", nextID)))
 			nextID++
@@ -458,7 +471,7 @@ func runHistory(c *vf.Ctx, dir string, i int) (res result) {
 }
 
 func run(c *vf.Ctx) {
-	c.Rule("history = seeded sequence of 10-16 ops from {uniquely tagged non-idempotent write, load of a generated SQLite file (WAL- and DELETE-mode), load of the equivalent SQL dump text, boot (single-node histories), user snapshot, graceful restart, killed restart, late join after log truncation, remove, invalid load (random bytes, header only, truncated file, corrupted pages behind a valid header, empty body)} on clusters of 1 or 3 real rqlited processes, requests sent to any node; after every op a marker barrier makes every live node apply the same prefix and each node's local state (level=none) must equal the model: last loaded database plus later acknowledged writes; an invalid load must be rejected and leave every node unchanged and usable. non-trivial = history with at least one successful load/boot followed by a restart, late join or snapshot; distinct by case")
+	c.Rule("history = seeded sequence of 10-16 ops from {uniquely tagged non-idempotent write, load of a generated SQLite file (WAL- and DELETE-mode), load of the equivalent SQL dump text, boot (single-node histories), user snapshot, graceful restart, killed restart, late join with and without prior log truncation (also onto a booted single node), remove, invalid load (random bytes, header only, truncated file, corrupted pages behind a valid header, empty body)} on clusters of 1 or 3 real rqlited processes, requests sent to any node; after every op a marker barrier makes every live node apply the same prefix and each node's local state (level=none) must equal the model: last loaded database plus later acknowledged writes; an invalid load must be rejected and leave every node unchanged and usable. non-trivial = history with at least one successful load/boot followed by a restart, late join or snapshot; distinct by case")
 	c.Assume("model state = counter + ordered tag list (tables c, t); loads replace both")
 	nH := c.N(6, 90)
 	tmp := vf.TempDir("c22")
